@@ -503,6 +503,45 @@ class Gen:
         return None
 
 
+def structured_programs(rng):
+    """Compositions whose shard boundaries do not coincide (a tall leaf joined with a stack of two leaves), then every
+    vertical cut / pad that falls ON, BEFORE or AFTER such a boundary, then one more composition on top of the result:
+    a cut canvas that renders correctly by itself but keeps wrong shard book-keeping shows only in the next operation."""
+    out = []
+    for h1 in (1, 2):
+        for h2 in (1, 2):
+            for order in (0, 1):
+                H = h1 + h2
+                unary = [("trimend", [n]) for n in range(1, H)] + [("trim", [t, c]) for t in range(H) for c in range(1, H - t + 1) if (t, c) != (0, H)]
+                unary += [("padtb", [a, b]) for a in (-1, 0, 1) for b in (-1, 0, 1) if (a, b) != (0, 0) and max(0, -a) + max(0, -b) < H]
+                for un, up in unary:
+                    for follow in range(6):
+                        g = Gen(rng, "utf8")
+                        A = g.emit("text", p=[2, -1, -1], leaf=[[[1, 0, 0], [1, 0, 0]]] * H, w=2, h=H)
+                        B = g.emit("text", p=[2, -1, -1], leaf=[[[2, 1, 0], [2, 1, 0]]] * h1, w=2, h=h1)
+                        C = g.emit("text", p=[2, 0, 0], leaf=[[[1, 2, 0], [2, 2, 0]]] * h2, w=2, h=h2)
+                        V = g.emit("combine", [B, C], w=2, h=H)
+                        J = g.emit("join", [A, V] if order else [V, A], [2, 2], w=4, h=H)
+                        nh = {"trimend": lambda: H - up[0], "trim": lambda: up[1], "padtb": lambda: H + up[0] + up[1]}[un]()
+                        U = g.emit(un, [J], up, wrap=1, w=4, h=nh)
+                        D = g.emit("text", p=[4, -1, -1], leaf=[[[2, 0, 0], [1, 0, 0], [2, 0, 0], [1, 0, 0]]], w=4, h=1)
+                        if follow == 0:
+                            g.emit("combine", [U, D], w=4, h=nh + 1)
+                        elif follow == 1:
+                            g.emit("combine", [D, U], w=4, h=nh + 1)
+                        elif follow == 2:
+                            g.emit("join", [U, D], [4, 4], w=8, h=max(nh, 1))
+                        elif follow == 3:
+                            g.emit("padtb", [U], [0, 1], wrap=1, w=4, h=nh + 1)
+                        elif follow == 4:
+                            g.emit("padtb", [U], [1, 0], wrap=1, w=4, h=nh + 1)
+                        else:
+                            W2 = g.emit("padlr", [U], [1, 1], wrap=1, w=6, h=nh)
+                            g.emit("trimend", [W2], [1], wrap=1, w=6, h=nh - 1) if nh > 1 else g.emit("wrap", [W2], w=6, h=nh)
+                        out.append(g.prog)
+    return out
+
+
 def random_program(rng, enc, depth):
     g = Gen(rng, enc)
     tries = 0
@@ -717,6 +756,11 @@ def run(chk):
     for i in range(n_rand):
         enc = "utf8" if i % 5 < 3 else ("wide" if i % 5 == 3 else "narrow")
         sink.add(run_program(random_program(rng, enc, rng.randint(4, 16)), enc, "random"))
+    # ---- structured programs: cuts on / off shard boundaries of a join with unequal stacks, followed by a composition ----
+    sp = structured_programs(rng)
+    for p in (sp if not quick else sp[:: 2]):
+        sink.add(run_program(p, "utf8", "structured"))
+    chk.cov["structured_programs"] = len(sp) if not quick else len(sp[:: 2])
     sink.flush()
     chk.add_tv("TV_CanvasTrace", sink.tv)
 
